@@ -19,7 +19,7 @@ theorem mem_keys_of_find {m : AMap κ ν} {k : κ} {v : ν} (h : find m k = some
   have := mem_of_find h
   exact List.mem_map.mpr ⟨(k, v), this, rfl⟩
 
-theorem find_of_mem {m : AMap κ ν} (hn : NoDupKeys m) {k : κ} {v : ν} (h : (k, v) ∈ m) :
+theorem findOfMem {m : AMap κ ν} (hn : NoDupKeys m) {k : κ} {v : ν} (h : (k, v) ∈ m) :
     find m k = some v := by
   induction m with
   | nil => simp at h
@@ -38,7 +38,7 @@ theorem mem_vals_iff {m : AMap κ ν} (hn : NoDupKeys m) {v : ν} :
   constructor
   · intro h
     obtain ⟨p, hp, rfl⟩ := List.mem_map.mp h
-    exact ⟨p.1, find_of_mem hn hp⟩
+    exact ⟨p.1, findOfMem hn hp⟩
   · rintro ⟨k, hk⟩
     exact List.mem_map.mpr ⟨(k, v), mem_of_find hk, rfl⟩
 
